@@ -153,3 +153,35 @@ func C17_Recovery() {
 	verif.Assert(second2, "the later statement gets a diagnostic of its own")
 	verif.Reach("checked")
 }
+
+// C17_AssignPlaces: assignment is only allowed to a bare identifier at the
+// start of an expression, of a parenthesis or of another assignment's right
+// side: every operator and prefix in front of `b = 1`, with and without
+// parentheses.
+func C17_AssignPlaces() {
+	ops := []string{"or", "and", "==", "!=", "<", "<=", ">", ">=", "+", "-", "*", "/"}
+	pre := []string{"", "not ", "- ", "+ "}
+	form := verif.Choice("form", 6)
+	op := ops[verif.Choice("op", len(ops))]
+	px := pre[verif.Choice("prefix", len(pre))]
+	var e string
+	switch form {
+	case 0:
+		e = px + "a " + op + " b = 1"
+	case 1:
+		e = px + "a " + op + " ( b = 1 )"
+	case 2:
+		e = "a = " + px + "a " + op + " b"
+	case 3:
+		e = px + "b = 1"
+	case 4:
+		e = "( a ) = 1"
+	default:
+		e = "a = b = " + px + "a " + op + " 1"
+	}
+	ctx := verif.Choice("context", 2)
+	src := "var a = 1\nvar b = 2\n" + []string{"print ", "eval "}[ctx] + e + "\n"
+	if c17Check(src) {
+		verif.Reach("rejected")
+	}
+}
